@@ -337,6 +337,10 @@ class SheetGen:
                 if not cond["value"]:
                     continue
                 cond["variable"] = info["var"]
+                if self.dups and rng.random() < 0.5:
+                    # the conditions leaving one no_op row test DIFFERENT variables (legal; outside C02's
+                    # single-meaning sheets: the junction has one decision)
+                    cond["variable"] = rng.choice(["@fields.color", "@results.answer", "@fields.age_group"])
             else:
                 cond = dict(blank)
             t = rng.choice(ACTION_TYPES + ["wait_for_response", "split_by_value"])
